@@ -353,6 +353,26 @@ class World:
         if dset is not None:
             ph.dataset = dset
             self.src_ds["yaml"] = ph.dataset
+        if cfg.get("zero") and dset is not None:
+            # the value class {0.0, -0.0, a tiny number that prints as zero}: a written zero is a VALUE, the field is present
+            if "first_atoms" in dset:
+                fa = dset["first_atoms"]
+                for i, x in enumerate(fa):
+                    if "supercell_energy" in x:
+                        x["supercell_energy"] = [0.0, -0.0, 1e-9, -1e-9][i % 4] if i < 3 else x["supercell_energy"]
+                    if "forces" in x and i == 0:
+                        x["forces"][0] = [0.0, -0.0, 1e-9]
+                        x["forces"][-1] = [0.0, 0.0, 0.0]
+            else:
+                dset["displacements"][0, 0] = [0.0, 0.0, 0.0]
+                dset["displacements"][-1, -1] = [-0.0, 1e-9, 0.0]
+                if "forces" in dset:
+                    dset["forces"][0, 0] = [0.0, -0.0, 1e-9]
+                    dset["forces"][-1, 0] = [0.0, 0.0, 0.0]
+                if "supercell_energies" in dset:
+                    dset["supercell_energies"][:3] = [0.0, -0.0, 1e-9][:len(dset["supercell_energies"])]
+            ph.dataset = dset
+            self.src_ds["yaml"] = ph.dataset
         big = bool(cfg.get("big"))
         if big and dset is not None:
             # values towards the ends of the printable range in the saved file
@@ -365,6 +385,8 @@ class World:
                 self.src_ds["yaml"] = ph.dataset
         if o["fc"] != "none":
             fc = random_fc(ph, rng, o["fc"])
+            if cfg.get("zero"):
+                fc[0, -1] = [[0.0, -0.0, 1e-9], [0.0, 0.0, 0.0], [-1e-9, 0.0, -0.0]]
             if big:
                 fc[0, 0] = [[1234567.75, -999999.5, 1e-9], [-1e-9, 100000.25, -0.987654321], [0.0, -0.0, 99999.5]]
                 fc[-1, -1, 1] = [-100000.5, 10000.125, 0.03125]
@@ -376,6 +398,8 @@ class World:
                 nac["method"] = o["nac"]["kind"]
             if o["nac"]["factor"]:
                 nac["factor"] = 7.25 if o["calc"] == "none" else 3.5
+                if cfg.get("zero") and o["fc"] == "none" and rng.random() < 0.5:
+                    nac["factor"] = 0.0  # (a unit factor of zero switches the correction off; it is still a written value)
             ph.nac_params = nac
             self.src_nac["yaml"] = nac
         return ph
@@ -693,6 +717,20 @@ def project_cell_np(world, ph2):
     return dict(src=src, smat=smat), dict(order=order, tol=tolc, issym=issym, freq=freq), differs
 
 
+def zeros_class(orig, loaded, decimals):
+    """0 if every entry of orig that is zero at the written decimals is present and exactly zero in loaded, else 9"""
+    if orig is None:
+        return 0
+    orig = np.asarray(orig, dtype=float)
+    if loaded is None:
+        return 9 if orig.size else 0
+    loaded = np.asarray(loaded, dtype=float)
+    if loaded.shape != orig.shape:
+        return 9
+    mask = np.abs(orig) < 0.5 * 10.0 ** (-decimals)
+    return 0 if not mask.any() or bool((loaded[mask] == 0.0).all()) else 9
+
+
 def project(world, ph2, err, wr=None):
     """Outcome of save+load -> abstract `loaded` record + quality classes.
     wr: what the saved text contains; the saved file is a candidate source of a field only if it holds it."""
@@ -788,6 +826,20 @@ def project(world, ph2, err, wr=None):
                 if na != nb or ph2.dataset["natom"] != len(ph.supercell):
                     c = 9
             q["ds"] = c
+            if src == "yaml":
+                # zeros of the saved dataset are values: present and zero after loading (per supercell for the energies)
+                z = [zeros_class(d, d2, dd)]
+                if ff is not None and (wr is None or wr["ds"]["forces"]):   # (forces are in the file only if asked for)
+                    z.append(zeros_class(ff, f2, df))
+                o1, o2 = world.src_ds[src], ph2.dataset
+                if "first_atoms" in o1 and "first_atoms" in o2 and len(o1["first_atoms"]) == len(o2["first_atoms"]):
+                    for x1, x2 in zip(o1["first_atoms"], o2["first_atoms"]):
+                        if "supercell_energy" in x1:
+                            z.append(zeros_class([x1["supercell_energy"]],
+                                                 [x2["supercell_energy"]] if "supercell_energy" in x2 else None, de))
+                elif "supercell_energies" in o1:
+                    z.append(zeros_class(o1["supercell_energies"], o2.get("supercell_energies"), de))
+                q["zeros"] = max(q.get("zeros", 0), *z)
         else:
             q["ds"] = 9
     obs["ds"] = dsobs
@@ -832,6 +884,8 @@ def project(world, ph2, err, wr=None):
             # to rounding on a generic lattice, i.e. a relative noise of a few 1e-16 per element
             converted = world.src_fc[src].shape != fc2.shape
             q["fc"] = err_class(cands[src], fc2, dec, extra=(1e-13 * float(np.abs(fc2).max()) if converted else 0.0))
+            if src == "yaml" and not converted:
+                q["zeros"] = max(q.get("zeros", 0), zeros_class(cands[src], fc2, 15))
     obs["fc"] = fcobs
     # NAC
     nacobs = dict(src="none", method="none", factor="none")
@@ -848,6 +902,11 @@ def project(world, ph2, err, wr=None):
             q["nac"] = 9
         else:
             q["nac"] = err_class(cands[src], val, 15 if src in ("yaml", "arg") else 8)
+            if src == "yaml":
+                q["zeros"] = max(q.get("zeros", 0), zeros_class(cands[src], val, 15))
+                if world.src_nac[src].get("factor") is not None:
+                    q["zeros"] = max(q["zeros"], zeros_class([world.src_nac[src]["factor"]],
+                                                             [nac2["factor"]] if nac2.get("factor") is not None else None, 6))
             own = world.src_nac[src].get("factor")
             fac = nac2.get("factor")
             default = DEFAULT_NAC_FACTOR[obs["calc"]] if obs["calc"] in DEFAULT_NAC_FACTOR else None
@@ -860,6 +919,7 @@ def project(world, ph2, err, wr=None):
             else:
                 nacobs["factor"] = "unknown"
     obs["nac"] = nacobs
+    q.setdefault("zeros", 0)
     obs["q"] = q
     return obs, q
 
